@@ -72,6 +72,14 @@ func c03Scens(quick bool) []*fatScen {
 		ss = append(ss, fill)
 		out = append(out, ss...)
 	}
+	// larger FAT volumes whose clusters are longer than a sector and whose data area does not start on a cluster boundary of
+	// the range, filled to the very last cluster with a handful of writes
+	for _, c := range []fatCfg{{Type: 12, Size: 4 << 20, Start: 1 << 20}, {Type: 12, Size: 4<<20 + 1536, Start: 512}, {Type: 16, Size: 33<<20 + 512, Start: 1 << 20}} {
+		if quick && c.Type == 16 {
+			continue
+		}
+		out = append(out, &fatScen{Name: "fillbig", Cfg: c, Oracle: "range", Depth: 2, Letters: []fsOp{{Kind: "fillgeo", Path: "g"}, {Kind: "write", Path: "last.bin", Off: "0", Len: "c+1"}, {Kind: "mkdir", Path: "d/e"}, {Kind: "remove", Path: "g000"}, {Kind: "reopen"}}})
+	}
 	return out
 }
 
